@@ -86,6 +86,21 @@ def row_margin(case, row):
     return ok, dist / case["upa"], L / case["upa"]
 
 
+def exact_boundary(case, row):
+    """The entry sits exactly ON its bound and floating point computes it exactly: whole amperes everywhere (currents,
+    coefficients, limit, tolerance), no relative tolerance, and either the linear relaxation or a network whose stations
+    all sit at 0 degrees (e^{j0} = 1 exactly).  "At most the limit plus the tolerance" includes equality, so such a case
+    is decisive although its margin is zero."""
+    upa, cd = case["upa"], case["cd"]
+    if case["rn"] != 0 or case["at"] % upa or row["sq"]:
+        return False
+    if not (case["lin"] or (case["fam"] == "col" and (case["ang"] + case["rot"]) % 360 == 0)):
+        return False
+    if any(n % cd for c in case["cons"] for n in c["n"]) or any(c["lim"] % upa for c in case["cons"]):
+        return False
+    return all(v % upa == 0 and abs(v) // upa < 2 ** 20 for col in case["dense"] for v in col)
+
+
 def decisive(case):
     """A feasible verdict is decisive when every entry is clear of its bound; an infeasible one
     when at least one violating entry is."""
@@ -94,7 +109,7 @@ def decisive(case):
         ok, dist, lim = row_margin(case, row)
         if ok != row["ok"]:
             raise RuntimeError("TLC's arithmetic and the harness's Fractions disagree on %r" % (row,))
-        clear = dist >= REL * max(1.0, lim)
+        clear = dist >= REL * max(1.0, lim) or (dist == 0 and exact_boundary(case, row))
         all_clear = all_clear and clear
         clear_fail = clear_fail or (clear and not ok)
     return all_clear if case["feas"] else clear_fail
@@ -403,7 +418,7 @@ def check_C06(tier, seed):
         "Interface.is_feasible: stations absent from the dict count as zero; unequal lengths must be rejected",
     ]
     quick = tier == "quick"
-    rep.bounds = {"nets": "NetsQuick (8)" if quick else "NetsAll (11)", "MaxT": 2 if quick else 3,
+    rep.bounds = {"nets": "NetsQuick (12)" if quick else "NetsAll (15)", "MaxT": 2 if quick else 3,
                   "drops": "DropsQuick" if quick else "DropsAll", "menu": "<= 10 columns per network",
                   "tolerance_pairs": "2-3 per network"}
     mc = run_tlc("MC_Feasibility", "Feasibility_mc", workers=workers, coverage=True,
